@@ -133,6 +133,10 @@ package fsm
 //@ func (*State).has
 //@   requires recv: s != nil && tr != nil
 //@   requires links: linksWF(fieldHeap(s.Transitions), fieldHeap(tr.Next))
+//@   ensures same-matcher-and-target: result == (exists i int :: 0 <= i && i < len(s.Transitions) &&
+//@       s.Transitions[i].Next == tr.Next && s.Transitions[i].Matcher == tr.Matcher)
+//@   loop 1 invariant none-so-far: forall i int :: {s.Transitions[i]} 0 <= i && i < $k ==>
+//@       !(s.Transitions[i].Next == tr.Next && s.Transitions[i].Matcher == tr.Matcher)
 //@ func (*State).simplifySelf
 //@   requires recv: s != nil && expanded != nil
 //@   requires links: linksWF(fieldHeap(s.Transitions), fieldHeap(s.Transitions[0].Next))
